@@ -319,6 +319,29 @@ func checkC06() fw.Check {
 				wins, bases = windowsThorough, basesThorough
 			}
 			var cases []fw.Case
+			// checksum hunt: the UDP source port is chosen by the kernel, so the probe bytes (and their checksum) differ
+			// from run to run; many full-window runs sweep the checksum space (a computed checksum of 0 must go out as 0xffff)
+			hunts := 16
+			if tier == "thorough" {
+				hunts = 160
+			}
+			for i := 0; i < hunts; i++ {
+				for _, vn := range []string{"udp6", "udp4"} {
+					v := refmatch.VariantByName(vn)
+					id := fmt.Sprintf("C06/checksum-hunt/%s/%d", vn, i)
+					cases = append(cases, fw.Case{ID: id, Bubble: true, Run: func(c *fw.Ctx) {
+						for k := 0; k < 40; k++ {
+							sc := scenario{tag: fmt.Sprintf("%s run %d", id, k), v: v, win: window{1, 255}, b: basesQuick[0],
+								spec:  func(s *drive.Spec) { s.Timeout = 20 * time.Millisecond; s.Delay = time.Millisecond; s.Port = uint16(33434 + k) },
+								model: func(e *simEnv) *pathModel { return &pathModel{hops: map[int]*hopSpec{}} }}
+							if out := runScenario(c, sc); out != nil {
+								out.e.close()
+							}
+						}
+						c.Nontrivial("checksum-hunt/" + vn)
+					}})
+				}
+			}
 			for _, v := range refmatch.Variants {
 				for _, w := range wins {
 					for _, b := range bases {
